@@ -33,9 +33,10 @@ def cells(tier, seed):
         ('binary/container+solute', ['NaCl', 'water'], 'NaCl', ('container', ['water', 'NaCl'])),
         ('liquid-solute/water', ['DMSO', 'water'], 'DMSO', 'water'),
         ('enzyme-bystander/water', ['NaCl', 'water', 'lipase'], 'NaCl', 'water'),
+        ('liquid-solute/container+solute', ['DMSO', 'water'], 'DMSO', ('container', ['water', 'DMSO'])),
         ('ternary/triethylamine', ['NaCl', 'water', 'Na2SO4'], 'NaCl', 'triethylamine'),
     ]
-    for vname, comps, solute, solvent in (variants if tier == 'thorough' else variants[:7]):
+    for vname, comps, solute, solvent in (variants if tier == 'thorough' else variants[:8]):
         for cu in (concs if tier == 'thorough' else concs[:4]):
             for qu in qunits:
                 if tier == 'quick' and (concs.index(cu) + qunits.index(qu) + len(vname)) % 2 and vname not in ('binary/water',):
@@ -47,6 +48,11 @@ def cells(tier, seed):
         if solute == 'DMSO':
             out.append({'id': f"{vname}/L_L/mL", 'fn': 'h_from', 'round': 'lite', 'max_paths': 400, 'cost': 3,
                         'params': {'comps': comps, 'solute': solute, 'solvent': solvent, 'cu': 'L/L', 'qu': 'mL'}})
+    # volume-fraction target with a solvent container of concrete composition (its bulk density is then a constant, which
+    # keeps the queries small also when the code under test mixes up densities)
+    out.append({'id': "liquid-solute/container+solute/L_L/mL/pinned-solvent", 'fn': 'h_from', 'round': 'lite', 'max_paths': 400,
+                'cost': 3, 'params': {'comps': ['DMSO', 'water'], 'solute': 'DMSO', 'solvent': ('container', ['water', 'DMSO']),
+                                      'cu': 'L/L', 'qu': 'mL', 'pin': {'solv.water': '40000', 'solv.DMSO': '3000'}}})
     for (vname, comps, solute, solvent) in [variants[0], variants[3]]:
         for cu, qu in [('M', 'mL'), ('mg/g', 'g')]:
             out.append({'id': f"finite-stock-vessel/{vname}/{cu.replace('/', '_')}/{qu}", 'fn': 'h_from', 'round': 'lite',
